@@ -91,13 +91,24 @@ def check_props(prop_id, workdir, allowed_axioms):
         f.write(text)
     rc, out = coqc_file(tmp, 900)
     res["output"] = out[-6000:]
-    # axioms: lines "name : type" following "Axioms:" blocks
+    # axioms: inside every "Axioms:" block an entry starts at column 0 with the (qualified) name,
+    # either "name : type" on one line or the name alone followed by indented ": type" lines
     axioms = set()
-    for block in re.findall(r"Axioms:\n((?:.+\n?)+?)(?=\n|\Z|Closed under|Axioms:)", out):
-        for line in block.splitlines():
-            m = re.match(r"^([A-Za-z_][\w\.']*)\s*:", line)
-            if m:
-                axioms.add(m.group(1))
+    in_block = False
+    for line in out.splitlines():
+        if line.startswith("Axioms:"):
+            in_block = True
+            continue
+        if not in_block:
+            continue
+        if not line.strip() or line.startswith("Closed under") or re.match(r"^(File |Warning|\s*=)", line):
+            in_block = False
+            continue
+        if line[0].isspace():
+            continue
+        m = re.match(r"^([A-Za-z_][\w\.']*)", line)
+        if m:
+            axioms.add(m.group(1))
     res["axioms"] = sorted(axioms)
     res["unexpected"] = sorted(a for a in axioms if a.split(".")[-1] not in allowed_axioms and a not in allowed_axioms)
     n_print = len(re.findall(r"Print Assumptions", text))
